@@ -411,7 +411,10 @@ func (t *Teddy) FindMatch(haystack []byte, start int) (int, int) {
 
 	// Process candidates
 	for pos != -1 {
-		// Iterate through all set bits in bucket mask (like Rust's verify64)
+		// Iterate through all set bits in bucket mask (like Rust's verify64).
+		// Several literals can match at this position (one a prefix of another,
+		// in different buckets): the earliest alternative wins, not the lowest bucket.
+		bestID := -1
 		for bucketMask != 0 {
 			// Find lowest set bit (bucket ID)
 			bucket := bits.TrailingZeros8(bucketMask)
@@ -419,12 +422,16 @@ func (t *Teddy) FindMatch(haystack []byte, start int) (int, int) {
 
 			// Verify patterns in this specific bucket
 			matchPos, patternID := t.verifyBucket(haystack[accumulatedOffset:], pos, bucket)
-			if matchPos != -1 && patternID >= 0 && patternID < len(t.patterns) {
-				// Match found! Return absolute start and end
-				matchStart := start + accumulatedOffset + matchPos
-				matchEnd := matchStart + len(t.patterns[patternID])
-				return matchStart, matchEnd
+			if matchPos != -1 && patternID >= 0 && patternID < len(t.patterns) &&
+				(bestID == -1 || patternID < bestID) {
+				bestID = patternID
 			}
+		}
+		if bestID != -1 {
+			// Match found! Return absolute start and end
+			matchStart := start + accumulatedOffset + pos
+			matchEnd := matchStart + len(t.patterns[bestID])
+			return matchStart, matchEnd
 		}
 
 		// No match at this candidate in any bucket, continue searching
